@@ -166,9 +166,13 @@ def resize_families(tier, containers):
         for K in range(2, 260, 9 if quick else 2):
             for bops in ([{"op": "Clear"}, {"op": "Get" if cont.startswith("Cache") else "Load", "k": 1000}],
                          [_st(cont, 1001, 42), {"op": "Get" if cont.startswith("Cache") else "Load", "k": 1001}],
-                         [{"op": "Delete", "k": 1002}, {"op": "Count" if cont.startswith("Cache") else "Size"}]):
+                         [{"op": "Delete", "k": 1002}, {"op": "Count" if cont.startswith("Cache") else "Size"}],
+                         # C08: "0 right after Clear" -- a Clear that meets the grow in flight, then Count / Size at once
+                         [{"op": "Clear"}, {"op": "Count" if cont.startswith("Cache") else "Size"}]):
                 n += 1
-                scen.append(dict(base, id="rz_%d" % n, setup=pre, threads=[[_st(cont, 9, 109)], bops],
+                # whether ONE insert finds its chain full (and grows the table) depends on the hash seed; a dozen inserts
+                # over the threshold make a grow within the first steps practically certain for every hasher
+                scen.append(dict(base, id="rz_%d" % n, setup=pre, threads=[[_st(cont, 9, 109)] + [_st(cont, 20 + j, 120 + j) for j in range(11)], bops],
                                  sched=dict(kind="solo-after", a=0, b=1, k=K, b_max=3000), max_steps=150000, note="grow frozen k=%d" % K))
         # (2) a writer parked in its user function on an absent key while another thread grows / shrinks / clears
         if not cont.startswith("Cache"):
